@@ -221,6 +221,10 @@ def classify_overlap(mt, cu, q, a, b, rel):
     # time as a unit without amount, inside the compound amount that already covers it
     if cu == 'fr-fr' and mt == 'CurrencyModel' and rel == 'contained' and str(b[3]).strip().lower() == 'cent':
         return 'overlap:fr-bare-cent-inside-amount'
+    # known-finding classifier: 'the day after tomorrow' / 'the day before yesterday' written with irregular white space inside
+    if cu == 'en-us' and mt == 'DateTimeModel' and rel == 'crossing' and re.fullmatch(r'the day\s+(after|before)', str(a[3])) \
+            and re.fullmatch(r'(after|before)\s+(tomorrow|yesterday)', str(b[3])) and re.search(r'\s{2,}|[\t\n\u00a0]', q[a[0]:b[1] + 1]):
+        return 'overlap:en-day-after-tomorrow-split-by-irregular-white-space'
     # known-finding classifier: one participant is a date-time entity that swallowed a filler separating two expressions
     # (pt-br: PrepositionRegex matches the empty string, so ANY text between a date and a time is a connector; nl-nl: 'tot <time> . <n> op de <n>')
     if mt == 'DateTimeModel' and cu in ('pt-br', 'nl-nl', 'de-de'):
